@@ -406,11 +406,8 @@ func (e *env) planBars() ([]string, func()) {
 		var held [][]int64 // the slices the renderer keeps per row index (still aliasing live counters)
 		rm := int64(0)
 		npass, pi := len(cs.Steps), 0
-		stop := false
+		unrep := false
 		driveBars(cs, func([]string) {}, func(idx int, name string, vals []int64) {
-			if stop {
-				return
-			}
 			for idx >= len(held) {
 				held = append(held, nil)
 			}
@@ -432,10 +429,22 @@ func (e *env) planBars() ([]string, func()) {
 				}
 			}
 			if stacked {
+				var pos, neg int64
+				for _, v := range vals {
+					if v > 0 {
+						if pos > math.MaxInt64-v {
+							unrep = true
+						}
+						pos += v
+					} else {
+						if neg < math.MinInt64-v {
+							unrep = true
+						}
+						neg += v
+					}
+				}
 				if rm == 0 && len(vals) > 0 {
 					add(fpStackZero)
-					stop = true
-					return
 				}
 				for _, v := range vals {
 					if v > math.MaxInt64/50 || v < math.MinInt64/50 {
@@ -447,6 +456,12 @@ func (e *env) planBars() ([]string, func()) {
 				}
 			}
 		}, func() { pi++ })
+		if unrep {
+			// a stacked row whose parts do not add up within int64: the row total (and with it
+			// the scale of the whole graph) is not a number any more; not decided by this check
+			c.Count("skipped_unrepresentable_stacked_total", 1)
+			return nil, nil
+		}
 	}
 	exec := func() {
 		vt := multiterm.NewVirtualTerm()
@@ -690,14 +705,14 @@ func (e *env) checkStacked(vt *multiterm.VirtualTerm, keys []string, rows []bRow
 // ---------------------------------------------------------------- table family
 
 type tState struct {
-	cols    []string // ordered, all
-	rows    []string // ordered, all
-	val     map[string]map[string]int64
-	rowSum  map[string]int64
-	colTot  map[string]int64
-	sum     int64
-	min     int64
-	max     int64
+	cols   []string // ordered, all
+	rows   []string // ordered, all
+	val    map[string]map[string]int64
+	rowSum map[string]int64
+	colTot map[string]int64
+	sum    int64
+	min    int64
+	max    int64
 }
 
 func readTable(agg *aggregation.TableAggregator, rsort, csort string) *tState {
